@@ -655,7 +655,7 @@ func TestRequestRoundTrip(t *testing.T) {
 			}
 		}
 	}
-	if Behaviour(99).String() == "" || MSHTTP500.String() != "MSHTTP500" || len(behaviourNames) != int(DuplicateDigestAttr)+1 {
+	if Behaviour(99).String() == "" || MSHTTP500.String() != "MSHTTP500" || len(behaviourNames) != int(ContentSwapped)+1 {
 		t.Fatal("Behaviour names out of sync")
 	}
 }
